@@ -54,3 +54,17 @@ func PrintList() {
 	b, _ := json.MarshalIndent(rows, "", " ")
 	fmt.Println(string(b))
 }
+
+// All returns the registered property checks in id order.
+func All() []*Def {
+	var ids []string
+	for id := range registry {
+		ids = append(ids, id)
+	}
+	sort.Strings(ids)
+	var out []*Def
+	for _, id := range ids {
+		out = append(out, registry[id])
+	}
+	return out
+}
